@@ -139,6 +139,10 @@ pub fn check_seed<V: Fv>(seed: [u8; 32], nmsgs: usize, vseed: u64, rep: &mut Rep
 }
 
 pub fn roundtrip(ctx: &Ctx, rep: &mut Report) {
+    if !crate::pool::keygen_responds::<F512>() {
+        rep.inconclusive("key generation did not return within 180 s (canary); reported as inconclusive, never as a violation".into());
+        return;
+    }
     // regression seeds first
     let mut seeds512: Vec<[u8; 32]> = REGRESSION_512.iter().map(|&i| counter_seed(i)).collect();
     let mut seeds1024: Vec<[u8; 32]> = REGRESSION_1024.iter().map(|&i| counter_seed(i)).collect();
